@@ -681,6 +681,12 @@ func (e *engine) applyDoTransforms(emit func(ast.Atom) bool) error {
 		if !ok {
 			return fmt.Errorf("expected first premise of clause: %v to be an atom %v", clause, clause.Premises[0])
 		}
+		// As for any other premise, apply-expressions among the arguments (p([1]) is p(fn:list(1)))
+		// are evaluated before the lookup; the unifier below does not handle them.
+		internalPremise, err := functional.EvalAtom(internalPremise, ast.ConstSubstList{})
+		if err != nil {
+			return err
+		}
 		var substs []ast.ConstSubstList
 		var inputFacts []ast.Atom
 		e.store.GetFacts(internalPremise, func(fact ast.Atom) error {
